@@ -1122,3 +1122,14 @@ package rockredis
 //@   modifies *
 //@ loop 1
 //@   invariant len(v) == i + old(len(inputBuffer)) && 0 <= i && i <= count && 1 <= count && count <= MAX_BATCH_NUM && (1 <= old(count) && old(count) <= MAX_BATCH_NUM ==> count == old(count)) && it != nil && rliOK(it)
+
+//@ property C08 C09
+// ZINCRBY: the member key and the score-index key of the NEW score are puts in the committed batch (a stale score
+// key is deleted before, never after, the new one is buffered); a new member grows the size by one
+//@ func (db *RockDB) ZIncrBy(ts int64, key []byte, delta float64, member []byte) (float64, error)
+//@   requires db != nil && db.wb != nil && ghost(wbputs, db.wb) == 0 && ghost(wbdels, db.wb) == 0
+//@   ensures result1 == nil ==> ghost(commits, db.rockEng) == old(ghost(commits, db.rockEng)) + 1
+//@   callassert Write bst(arg1, ghost(wbver, arg1), kid(sk)) == 1 && bst(arg1, ghost(wbver, arg1), kid(ek)) == 1
+//@   ensures result1 == nil && ghost(misses, db) != old(ghost(misses, db)) ==> ghost(sizedelta, db) == 1
+//@   ensures ghost(wbputs, db.wb) == 0 && ghost(wbdels, db.wb) == 0
+//@   modifies ghost(wbputs, _), ghost(wbdels, _), ghost(wbver, _), ghost(commits, _), ghost(cputs, _), ghost(cdels, _), ghost(cver, _), ghost(misses, db), ghost(hits, db), ghost(readerrs, db), ghost(sizedelta, db), ghost(newsize, db), ghost(sizeupds, db), ghost(tblcnt, db), alloftype(headerMetaValue)
